@@ -208,6 +208,10 @@ JunkAtom == [k |-> "a"]
 DropFirst(t) == IF t.k # "a" THEN <<>> ELSE IF "df" \in DOMAIN t THEN <<t.df>> ELSE <<JunkAtom>>
 DropLast(t)  == IF t.k # "a" THEN <<>> ELSE IF "dl" \in DOMAIN t THEN <<t.dl>> ELSE <<JunkAtom>>
 
+\* value terms of the stripped string name positions of `u`; move them back to positions of cx.ts
+ShiftSeq(q, d) == [x \in DOMAIN q |-> q[x] + d]
+Shift(v, d) == [v EXCEPT !.isd = ShiftSeq(v.isd, d), !.asd = ShiftSeq(v.asd, d), !.ash = ShiftSeq(v.ash, d), !.hp = ShiftSeq(v.hp, d)]
+
 I_SockX(cx, i, j, kind) ==
   LET c == LastK(cx.ts, i, j, "cl") IN
   IF c = 0 THEN Rej
@@ -225,7 +229,8 @@ I_SockX(cx, i, j, kind) ==
                ELSE LET u == IF c - 1 = i THEN <<>>
                              ELSE DropFirst(cx.ts[i]) \o SubSeq(cx.ts, i+1, c-2) \o DropLast(cx.ts[c-1])
                         a == I_AddrX([ts |-> u, v6 |-> <<>>], 1, Len(u), kind)
-                    IN IF a.o = "acc" /\ port.o = "acc" THEN Acc(Comb(a.v, port.v)) ELSE Rej
+                        d == IF K(cx.ts, i) = "a" THEN i - 1 ELSE i
+                    IN IF a.o = "acc" /\ port.o = "acc" THEN Acc(Comb(Shift(a.v, d), port.v)) ELSE Rej
 
 I_Sock(cx, i, j)   == Or3(I_SockX(cx, i, j, "svc"), I_SockX(cx, i, j, "v4"), I_SockX(cx, i, j, "v6"))   \* ScionSocketAddr::from_str
 I_SockIp(cx, i, j) == Or2(I_SockX(cx, i, j, "v4"), I_SockX(cx, i, j, "v6"))          \* ScionSocketIpAddr::from_str
